@@ -129,7 +129,8 @@ CHECKS = {
              "is agrees with the specification on all placements without grad and without unbatched plain vmap; proved counterexamples for those two. "
              "The construct alphabet includes the higher-order primitives neither Seed nor modular_vmap interprets (jax.checkpoint; custom_jvp / custom_vjp, whose rule runs in place of the call below a grad - `relocate`): seed of a placement containing one raises (theorem, spec and - without grad / unbatched vmap - as-is), after two repairs of the code (Seed and modular_vmap re-bound such equations unchanged: key ignored / one draw for all lanes). "
              "Tie: every placement over {jit, scan, while, fori static/dynamic, cond, switch, grad, vmap batched/unbatched, modular_vmap, checkpoint, custom_jvp} up to depth 1 + sampled depth 2-3 (quick) / exhaustively to depth 3 (thorough), a fixed custom_vjp family, plain and ADEV site, executed on "
-             "real JAX with and without seed and compared with the model and with the property's requirement.",
+             "real JAX with and without seed and compared with the model and with the property's requirement; vmap over keys (traced key) for 13 placements. "
+             "SECOND MODEL (Model/Interp.lean: a Jaxpr interpreter that interprets / inlines / re-binds higher-order equations): for every Jaxpr the guarded Seed returns only after giving a key to every site once, in order, and raises exactly when a re-bound equation holds a site; the unguarded code let a site escape exactly there. Tie: the real jaxprs JAX stages for random nestings are translated into the model's terms; the code's sub-jaxpr walker vs the model's on every higher-order equation, seed raising vs the model.",
         note=TB + "C14 (partial): the model's rules are assumptions about JAX's tracing/lowering, re-validated by the enumeration only up to depth 3; two open known findings (grad inlines the sampler; unbatched plain vmap replicates); an EAGER jax.checkpoint(f) of an unseeded f re-evaluates JAX's cached jaxpr (same draw every call) - nothing is compiled, so it is outside the statement and not judged.",
         technique="Lean 4 proof over a decision model + exhaustive bounded differential enumeration against real JAX",
         design="§3 C14"),
